@@ -250,6 +250,69 @@ def gen_bursts(v, rng, n=3000):
     return cases
 
 
+def gen_held_bursts(v, rng, n=2000):
+    """engines inb3b / inb5b: runs of packets written back to back (operation 4,1,.. = written, nothing runs before
+    the next operation) so that several frames reach the server in ONE read; gated handlers complete in every order.
+    Three flavours: clean (distinct ids, plain topics, everything completes: `every packet is eventually handled`
+    can be read off), mixed (control packets in the bursts, failing handlers), and fixed hand-written shapes."""
+    cases = []
+    for m in (1, 2, 3):
+        for k in (2, 3, 4, 6, 9):
+            for q in (0, 1, 2):
+                cfg = (2, m, 3, 0, 0) if v == 5 else (2, 0, 0, m, 0)
+                ops = [(4,) + pub(q, i + 1, 1 + i % 3) for i in range(k - 1)] + [pub(q, k, 1)]
+                cases.append(fmt(cfg, ops + [(2, h + 1, 0) for h in range(k)]))
+                cases.append(fmt(cfg, ops + [(2, h, 0) for h in range(k, 0, -1)]))
+                cases.append(fmt(cfg, [(2, 1, 0)] + ops + [(2, h + 1, 0) for h in range(1, k)]))
+    for _ in range(n):
+        clean = rng.random() < 0.6
+        mode = 0 if clean or rng.random() < 0.7 else 1
+        lim = rng.choice([1, 2, 2, 3, 4])
+        if v == 5:
+            cfg = (2, lim if rng.random() < 0.7 else 0, 3, 0, mode)
+        else:
+            cfg = (2, 0, 0, lim if rng.random() < 0.85 else 0, mode)
+        ops, pend = [], []
+        nh = nc = pid = 0
+        for _b in range(rng.randint(1, 4)):
+            k = rng.choice([1, 2, 2, 3, 3, 4, 5, 7])
+            for j in range(k):
+                r = rng.random()
+                if clean or r < 0.7:
+                    pid += 1
+                    q = rng.choice([0, 1, 1, 2])
+                    o = pub(q, pid, rng.randint(1, 3), plen=rng.choice([0, 0, 1, 5]))
+                    nh += 1
+                    pend.append(nh)
+                elif r < 0.8:
+                    pid += 1
+                    o = (1, rng.choice([6, 7]), pid, 1)
+                    nc += 1
+                elif r < 0.9:
+                    o = (1, 8)
+                    nc += 1
+                else:
+                    o = (1, 4, rng.randint(1, max(1, pid)))
+                    nc += 1
+                ops.append(o if j == k - 1 else (4,) + o)
+            # some completions between the bursts
+            for _c in range(rng.randint(0, len(pend))):
+                h = pend.pop(rng.randrange(len(pend)))
+                ops.append((2, h, 0 if clean or rng.random() < 0.85 else hres_choices(v, rng)))
+                if mode == 1 and nc and rng.random() < 0.4:
+                    ops.append((3, rng.randint(1, nc), rng.choice([0, 2])))
+        rng.shuffle(pend)
+        for h in pend:
+            ops.append((2, h, 0))
+        if mode == 1:
+            for c in range(1, nc + 1):
+                ops.append((3, c, 0))
+        # idle rounds: whatever is still buffered must come out
+        ops += [(1, 8)] if not clean else []
+        cases.append(fmt(cfg, ops))
+    return cases
+
+
 def gen_outcomes(v, rng):
     cases = []
     results = [0, 1, 2, 16, 128, 131, 135, 144, 145, 151, 153, 129, 255] if v == 5 else [0, 1, 7]
